@@ -136,6 +136,9 @@ static char* ext_vars[MAX_ARGS_EXT_VAR + 1];
 static char* modules_data[MAX_ARGS_MODULE_DATA + 1];
 
 static bool follow_symlinks = true;
+// Number of files whose scan failed with an error in directory / scan-list
+// mode. Written by the scanning threads while holding output_mutex.
+static int scan_errors_reported = 0;
 static bool recursive_search = false;
 static bool scan_list_search = false;
 static bool show_module_data = false;
@@ -1344,6 +1347,8 @@ static void* scanning_thread(void* param)
         cli_mutex_lock(&output_mutex);
         _ftprintf(stderr, _T("error scanning %s: "), file_path);
         print_scanner_error(args->scanner, result);
+        // Remembered for the exit status, as the single-file mode does.
+        scan_errors_reported++;
         cli_mutex_unlock(&output_mutex);
       }
 
@@ -1690,7 +1695,7 @@ int _tmain(int argc, const char_t** argv)
 
     file_queue_destroy();
 
-    if (result != ERROR_SUCCESS)
+    if (result != ERROR_SUCCESS || scan_errors_reported > 0)
       exit_with_code(EXIT_FAILURE);
   }
   else
